@@ -9,7 +9,7 @@ PROTOCOL_PF_FD = (0xEA, 0xEE, 0x4D, 0x4E, 0x25, 0xEB, 0xEC)
 class Stack:
     """one node with one CA (claim bypassed) and recording listeners"""
 
-    def __init__(self, w, name, addr, dll='j1939-21', ecu_listener=False, claim=None, **kw):
+    def __init__(self, w, name, addr, dll='j1939-21', ecu_listener=False, claim=None, ecu0=False, **kw):
         """claim: None = address claim bypassed; otherwise a claim history of make_ca (e.g. 'normal_veto'): the CA
         runs the real claim procedure and its one-shot claim timer keeps re-arming every 0.5 s"""
         self.w = w
@@ -26,6 +26,11 @@ class Stack:
         self.ca.subscribe(self._on_ca)
         if ecu_listener:
             self.node.ecu.subscribe(self._on_ecu)
+        # ecu0: an ECU-level listener bound to address 0 (a valid address, falsy in Python).  It makes the stack an owner of
+        # address 0, so it is only used where nobody else on the bus is addressed as 0: it then gets broadcasts only
+        self.rx_ecu0 = []
+        if ecu0:
+            self.node.ecu.subscribe(self._on_ecu0, 0)
 
     def _on_ca(self, prio, pgn, sa, ts, data):
         self.w.callback_fired()
@@ -34,6 +39,10 @@ class Stack:
     def _on_ecu(self, prio, pgn, sa, ts, data):
         self.w.callback_fired()
         self.rx_ecu.append({'prio': prio, 'pgn': pgn, 'sa': sa, 'data': list(data), 't': self.w.now})
+
+    def _on_ecu0(self, prio, pgn, sa, ts, data):
+        self.w.callback_fired()
+        self.rx_ecu0.append({'prio': prio, 'pgn': pgn, 'sa': sa, 'data': list(data), 't': self.w.now})
 
     def alive(self):
         return self.node.job_alive()
